@@ -20,6 +20,10 @@ CLAIMED = {
          "Decides the structural clauses of C13 completely: the per-key predicate of hasSecrets folds to true for UNKNOWN/SYMMETRIC/ASYMMETRIC_PRIVATE and false for PUBLIC/REMOTE independent of any other key field, and is applied to every key; every reference to the unguarded handle constructor and every cleartext Writer.Write is guarded by hasSecrets(same value)==false, fed by a checked decrypt*, or lives in the two insecure packages; decrypt*/encrypt* call the caller's AEAD exactly once with the caller's associated data and release a keyset only on its success; keyset-info fields derive from metadata only.",
          "Trusted: go/ssa; confidentiality of the caller's AEAD; a key whose KeyMaterialType label contradicts its type URL is left to the per-type parsers (not decided here).",
          "DESIGN.md §4 C13"),
+ "C05": ("census of every PrimitiveFromKey site and wrapper method; value-identity and dominance rules for entry/keyID/prefix pairing, primary selection, candidate selection and logged key IDs",
+         "Decides the selection rule of C05 structurally for all 16 factory sites and the wrappers they build: primitives come only from Enabled entries (iterator yield dominated by KeyStatus()==Enabled over 0..Len()-1) or Handle.Primary(); key ID, output prefix, adapter prefix and map key stored with a primitive are computed from that same entry; the primary slot is assigned only under entry.IsPrimary(); accepting operations are tried only on candidates returned by PrimitivesMatchingPrefix(input) whose lookup uses exactly the 5 leading bytes under a length guard plus the prefix-less bucket; every logged key ID is read from the pair whose operation succeeded. Behaviour of the wrapped primitives and rotation histories are not decided (C11 covers the manager).",
+         "Trusted: go/ssa incl. range-over-func lowering; idioms recognised are listed in checker/rules/c05.go.",
+         "DESIGN.md §4 C05"),
 }
 
 NOT_APPLICABLE = {
